@@ -59,6 +59,15 @@ def check(ctx):
 
 
 # ----------------------------------------------------------------------------- helpers
+def absent(r, idx, construct, detail, loc='', **kw):
+    """Report a construct that was NOT FOUND: a removal (VIOLATION) only when no unreviewed helper could hide it."""
+    left = list(getattr(idx, 'unreviewed', None) or [])
+    if left:
+        r.undecided(construct, detail + ' [not called a removal: helper(s) %s could not be inlined for review]' % ', '.join(left), loc)
+    else:
+        r.violation(construct, detail, loc, **kw)
+
+
 def roles(fi, offset=0):
     """(params, student, utils) parameter names of a comparer."""
     p = fi.params[offset:]
@@ -209,7 +218,7 @@ ZERO_TESTS = ["_U.within_tolerance(0, np.linalg.norm(_S))", "_U.within_tolerance
               "is_nearly_zero(_S, _U.tolerance, reference=__)", "np.linalg.norm(_S) == 0"]
 
 
-def zero_refusal(r, fi, paths, student, construct, what):
+def zero_refusal(r, idx, fi, paths, student, construct, what):
     """Some path guarded by `student is (nearly) zero` returns a zero result; the accepting path is guarded by its negation."""
     found = None
     for p in paths:
@@ -236,7 +245,7 @@ def zero_refusal(r, fi, paths, student, construct, what):
         if any(mentions(g, student) and 'norm' in unparse(g) for p in paths for g in p.guards):
             r.undecided(construct, 'a norm test on the submission exists but is not recognised', fi.loc)
             return
-        r.violation(construct, 'no path refuses a (nearly) zero submission: the zero vector %s and is accepted' % what, fi.loc,
+        absent(r, idx, construct, 'no path refuses a (nearly) zero submission: the zero vector %s and is accepted' % what, fi.loc,
                     expected='if utils.within_tolerance(0, np.linalg.norm(student_eval)): return a zero result')
         return
     p, g = found
@@ -312,7 +321,7 @@ def d1_between(ctx, idx):
         REAL = ['not np.isreal(_S)', 'np.imag(_S) != 0', '_S.imag != 0', 'not np.isrealobj(_S)', 'np.iscomplex(_S)']
         construct = 'between_comparer: non-real input'
         if not raising:
-            r.violation(construct, 'no path raises: a submission with a nonzero imaginary part is no longer refused (only its real '
+            absent(r, idx, construct, 'no path raises: a submission with a nonzero imaginary part is no longer refused (only its real '
                         'part would be compared with the bounds)', fi.loc, expected='if not np.isreal(student_eval): raise InputTypeError')
         for p in raising:
             where = lib.loc(fi, p.leaf.stmt)
@@ -369,7 +378,7 @@ def d1_eigenvector(ctx, idx):
             raise AnalysisError('eigenvector_comparer: expected (matrix, eigenvalue)')
         M, L = names
         paths = ret_paths(fi)
-        zero_refusal(r, fi, paths, S, 'eigenvector_comparer: zero vector', 'satisfies M.0 = lambda.0')
+        zero_refusal(r, idx, fi, paths, S, 'eigenvector_comparer: zero vector', 'satisfies M.0 = lambda.0')
         finals = [p for p in paths if p.leaf.kind == 'ret' and not isinstance(p.leaf.expr, ast.Dict)]
         if not finals:
             raise AnalysisError('eigenvector_comparer: no deciding return')
@@ -407,7 +416,7 @@ def d1_eigenvector(ctx, idx):
         # shape validated against (n,)
         calls = [c for c in lib.calls_named(fi.node, 'validate_shape') if isinstance(c.func, ast.Attribute) and is_name(c.func.value, U)]
         if not calls:
-            r.violation('eigenvector_comparer: shape', 'utils.validate_shape is no longer called: a submission of the wrong shape is '
+            absent(r, idx, 'eigenvector_comparer: shape', 'utils.validate_shape is no longer called: a submission of the wrong shape is '
                         'graded (or raises a shape error of another policy) instead of being reported as a shape mismatch', fi.loc)
         for c in calls:
             ok = len(c.args) == 2 and is_name(c.args[0], S)
@@ -438,9 +447,9 @@ def d1_span(ctx, idx):
             r.violation('vector_span_comparer: parameter check', 'the parameter check is inverted: well-formed parameters raise',
                         fi.loc, expected='if not are_same_length_vectors(comparer_params_eval): raise')
         else:
-            r.violation('vector_span_comparer: parameter check', 'the comparer parameters are no longer checked to be equal-length vectors',
+            absent(r, idx, 'vector_span_comparer: parameter check', 'the comparer parameters are no longer checked to be equal-length vectors',
                         fi.loc, expected='if not are_same_length_vectors(comparer_params_eval): raise')
-        zero_refusal(r, fi, paths, S, 'vector_span_comparer: zero vector', 'lies in every span (residual 0)')
+        zero_refusal(r, idx, fi, paths, S, 'vector_span_comparer: zero vector', 'lies in every span (residual 0)')
         finals = [p for p in paths if p.leaf.kind == 'ret' and not isinstance(p.leaf.expr, ast.Dict)]
         if not finals:
             raise AnalysisError('vector_span_comparer: no deciding return')
@@ -655,7 +664,7 @@ def d1_entry(ctx, idx):
                         % (short(g, 60) if g is not None else 'missing'), where, expected="self.config['entry_partial_credit']")
         missing = {'all', 'none', 'proportional', 'flat'} - seen
         if missing and not any(o.status != 'discharged' for o in r.obligations):
-            r.violation('MatrixEntryComparer: branches', 'no branch for %s' % sorted(missing), fi.loc)
+            absent(r, idx, 'MatrixEntryComparer: branches', 'no branch for %s' % sorted(missing), fi.loc)
 
 
 # ----------------------------------------------------------------------------- D1 LinearComparer
@@ -675,7 +684,7 @@ def d1_linear(ctx, idx):
                     guard = (a, x)
                     break
         if guard is None:
-            r.violation('LinearComparer.__call__: sample floor', 'no refusal of fewer than three samples: a straight line through two '
+            absent(r, idx, 'LinearComparer.__call__: sample floor', 'no refusal of fewer than three samples: a straight line through two '
                         'samples always fits, so every answer would earn linear credit', call.loc, expected='if len(student_evals) < 3: raise ConfigError')
         else:
             a, x = guard
@@ -878,7 +887,7 @@ def d1_linear(ctx, idx):
             src = unparse(comp)
             gvc = [c for c in ast.walk(comp) if isinstance(c, ast.Call) and nf.callee_name(c) == 'get_valid_modes']
             if not gvc:
-                r.violation('LinearComparer.__call__: mode filter', 'the relations compared are not taken from get_valid_modes: the zero '
+                absent(r, idx, 'LinearComparer.__call__: mode filter', 'the relations compared are not taken from get_valid_modes: the zero '
                             'filter is bypassed', where, expected='self.get_valid_modes(is_comparing_zero)')
             else:
                 arg = gvc[0].args[0] if gvc[0].args else None
@@ -1002,7 +1011,7 @@ def d2_order(ctx, idx):
                         vcalls.append(c)
             label = q.split('.comparers.')[-1].replace('comparers.', '').replace('linear_comparer.', '')
             if not vcalls:
-                r.violation('%s: shape validation' % label, 'the submission is no longer validated against the expected shape: a wrong-shaped '
+                absent(r, idx, '%s: shape validation' % label, 'the submission is no longer validated against the expected shape: a wrong-shaped '
                             'answer is compared (broadcast or shape error of another policy) instead of being reported as a shape mismatch',
                             fi.loc, expected='%s(...) before the comparison' % vname)
                 continue
@@ -1649,6 +1658,21 @@ _SPAN_ZERO = ("    if utils.within_tolerance(0, np.linalg.norm(student_eval)):\n
               "            'grade_decimal': 0,\n            'msg': 'Input should be a nonzero vector.'\n        }\n")
 _BETWEEN = "    return start <= np.real(student_eval) <= stop"
 
+_HANDLERS_OLD = (
+    "                result = super(MatrixGrader, self).check_response(answer, student_input, **kwargs)\n"
+    "        except ShapeError as err:\n            if self.config['suppress_matrix_messages']:\n"
+    "                return {'ok': False, 'msg': '', 'grade_decimal': 0}\n            elif self.config['shape_errors']:\n"
+    "                raise\n            else:\n                return {'ok': False, 'msg': str(err), 'grade_decimal': 0}\n"
+    "        except InputTypeError as err:\n            if self.config['suppress_matrix_messages']:\n"
+    "                return {'ok': False, 'msg': '', 'grade_decimal': 0}\n            elif self.config['answer_shape_mismatch']['is_raised']:\n"
+    "                raise\n            else:\n                return {'ok': False, 'grade_decimal': 0, 'msg': str(err)}\n"
+    "        except (ArgumentShapeError, MathArrayError) as err:\n"
+    "            # If we're using matrix quantities for noncommutative scalars, we\n"
+    "            # might get an ArgumentShapeError from using functions of matrices,\n"
+    "            # or a MathArrayError from taking a funny power of a matrix.\n            # Suppress these too.\n"
+    "            if self.config['suppress_matrix_messages']:\n                return {'ok': False, 'msg': '', 'grade_decimal': 0}\n"
+    "            raise\n        return result\n")
+
 MUTANTS = [
     # ---- D1 / D4: between
     Mutant('between-lower-strict', CMP, _BETWEEN, "    return start < np.real(student_eval) <= stop", 'D1'),
@@ -1743,5 +1767,68 @@ BENIGN = [
            "            if not self.config['suppress_matrix_messages']:\n                if self.config['shape_errors']:\n                    raise\n                return {'ok': False, 'msg': str(err), 'grade_decimal': 0}\n            return {'ok': False, 'msg': '', 'grade_decimal': 0}"),
     Benign('equality-transform-fetched-first', CMP, "        self.validate(expected_eval, student_eval, utils)\n\n        transform = self.config['transform']\n        expected_eval = transform(expected_eval)",
            "        transform = self.config['transform']\n        self.validate(expected_eval, student_eval, utils)\n        expected_eval = transform(expected_eval)"),
+    Benign('policy-merged-except-with-isinstance-dispatch', MG, _HANDLERS_OLD,
+           "                return super().check_response(answer, student_input, **kwargs)\n"
+           "        except (InputTypeError, ArgumentShapeError, MathArrayError) as err:\n"
+           "            if self.config['suppress_matrix_messages']:\n                return {'ok': False, 'msg': '', 'grade_decimal': 0}\n"
+           "            if isinstance(err, ShapeError):\n                if self.config['shape_errors']:\n                    raise\n"
+           "                return {'ok': False, 'msg': str(err), 'grade_decimal': 0}\n"
+           "            if isinstance(err, InputTypeError):\n                if self.config['answer_shape_mismatch']['is_raised']:\n                    raise\n"
+           "                return {'ok': False, 'grade_decimal': 0, 'msg': str(err)}\n            raise\n"),
+    Benign('policy-merged-except-with-helper', MG, _HANDLERS_OLD,
+           "                return super().check_response(answer, student_input, **kwargs)\n"
+           "        except (ShapeError, InputTypeError, ArgumentShapeError, MathArrayError) as err:\n"
+           "            if self.config['suppress_matrix_messages']:\n                return {'ok': False, 'msg': '', 'grade_decimal': 0}\n"
+           "            if self._is_raised(err):\n                raise\n"
+           "            if isinstance(err, ShapeError):\n                return {'ok': False, 'msg': str(err), 'grade_decimal': 0}\n"
+           "            return {'ok': False, 'grade_decimal': 0, 'msg': str(err)}\n\n"
+           "    def _is_raised(self, err):\n        if isinstance(err, ShapeError):\n            return self.config['shape_errors']\n"
+           "        if isinstance(err, InputTypeError):\n            return self.config['answer_shape_mismatch']['is_raised']\n        return True\n"),
+    Benign('linear-result-helpers', LIN,
+           "        results = [\n            {'grade_decimal': self.config[mode], 'msg': self.config[mode+'_msg']}\n"
+           "            if is_nearly_zero(error, utils.tolerance, reference=student_evals_norm)\n            else\n"
+           "            {'grade_decimal': 0, 'msg': ''}\n            for mode, error in zip(filtered_modes, errors)\n        ]\n\n"
+           "        # Get the best result using max.\n        # For a list of pairs, max compares by 1st index and uses 2nd to break ties\n"
+           "        key = lambda result: (result['grade_decimal'], result['msg'])\n        return max(results, key=key)\n",
+           "        results = [\n            self._get_mode_result(mode, error, utils.tolerance, student_evals_norm)\n"
+           "            for mode, error in zip(filtered_modes, errors)\n        ]\n        return max(results, key=self._result_rank)\n\n"
+           "    def _get_mode_result(self, mode, error, tolerance, reference):\n"
+           "        if is_nearly_zero(error, tolerance, reference=reference):\n"
+           "            return {'grade_decimal': self.config[mode], 'msg': self.config[f'{mode}_msg']}\n"
+           "        return {'grade_decimal': 0, 'msg': ''}\n\n"
+           "    @staticmethod\n    def _result_rank(result):\n        return (result['grade_decimal'], result['msg'])\n"),
+    Benign('entry-credit-chain-extracted', CMP,
+           "        num_entries = comparisons_summary.size\n        percent_correct = np.sum(comparisons_summary).item()/num_entries\n"
+           "        msg = self.format_message_with_locations(self.config['entry_partial_msg'], comparisons_summary)\n"
+           "        partial_credit = self.config['entry_partial_credit']\n\n"
+           "        if percent_correct == 1:\n            return True\n        elif percent_correct == 0:\n"
+           "            return {'ok': False, 'grade_decimal': 0, 'msg': msg}\n        elif partial_credit == 'proportional':\n"
+           "            return {'ok': 'partial', 'grade_decimal': percent_correct, 'msg': msg}\n        else:\n"
+           "            return {'ok': 'partial', 'grade_decimal': partial_credit, 'msg': msg}\n",
+           "        return self._grade_entry_comparisons(comparisons_summary)\n\n"
+           "    def _grade_entry_comparisons(self, comparisons_summary):\n"
+           "        fraction_correct = np.sum(comparisons_summary).item()/comparisons_summary.size\n"
+           "        msg = self.format_message_with_locations(self.config['entry_partial_msg'], comparisons_summary)\n"
+           "        if fraction_correct == 1:\n            return True\n        if fraction_correct == 0:\n"
+           "            return {'ok': False, 'grade_decimal': 0, 'msg': msg}\n"
+           "        credit = self.config['entry_partial_credit']\n        if credit == 'proportional':\n            credit = fraction_correct\n"
+           "        return {'ok': 'partial', 'grade_decimal': credit, 'msg': msg}\n"),
+    Benign('equality-validate-guard-clause', CMP,
+           "        if hasattr(utils, 'validate_shape'):\n            # in numpy, scalars have empty tuples as their shapes\n"
+           "            shape = tuple() if isinstance(expected_eval, Number) else expected_eval.shape\n"
+           "            utils.validate_shape(student_eval, shape)\n",
+           "        if not hasattr(utils, 'validate_shape'):\n            return\n        if isinstance(expected_eval, Number):\n"
+           "            expected_shape = tuple()\n        else:\n            expected_shape = expected_eval.shape\n"
+           "        utils.validate_shape(student_eval, expected_shape)\n"),
+    Benign('span-lstsq-tuple-unpacked', CMP,
+           "    ols = np.linalg.lstsq(column_vectors, student_eval, rcond=-1)\n    error = np.sqrt(ols[1])\n",
+           "    _, residuals, _, _ = np.linalg.lstsq(column_vectors, student_eval, rcond=-1)\n    error = np.sqrt(residuals)\n"),
+    Benign('eigen-zero-test-in-helper', CMP,
+           "    if utils.within_tolerance(0, np.linalg.norm(student_eval)):\n        return {\n            'ok': False,\n"
+           "            'grade_decimal': 0,\n            'msg': 'Eigenvectors must be nonzero.'\n        }\n\n    return utils.within_tolerance(actual, expected)\n",
+           "    if _is_zero_vector(student_eval, utils):\n        return _zero_credit('Eigenvectors must be nonzero.')\n\n"
+           "    return utils.within_tolerance(actual, expected)\n\n"
+           "def _is_zero_vector(vector, utils):\n    return utils.within_tolerance(0, np.linalg.norm(vector))\n\n"
+           "def _zero_credit(msg):\n    return {'ok': False, 'grade_decimal': 0, 'msg': msg}\n"),
     Benign('eigen-log-statement', CMP, "    expected = eigenvalue * student_eval\n    actual = matrix * student_eval\n", "    expected = eigenvalue * student_eval\n    actual = matrix * student_eval\n    _unused = len(comparer_params_eval)\n"),
 ]
